@@ -64,3 +64,20 @@ package light
 //@   loop 2: hint smpls[rangeindex#2].Proof == nil ==> len(failedSamples) == len(head(failedSamples)) + 1 && failedSamples[len(failedSamples)-1] == idxs[rangeindex#2] && len(samples.Available) == len(head(samples.Available))
 //@   loop 2: hint smpls[rangeindex#2].Proof != nil ==> len(samples.Available) == len(head(samples.Available)) + 1 && samples.Available[len(samples.Available)-1] == idxs[rangeindex#2] && len(failedSamples) == len(head(failedSamples))
 //@   loop 2: invariant (exists j int :: 0 <= j && j <= rangeindex#2 && smpls[j].Proof == nil) ==> len(failedSamples) > 0
+
+// ---------------------------------------------------------------------------------------------
+// C14 (light node): pruning a header's samples. The sampling result is the only record of which sample
+// blocks exist; it is deleted last - only after the loop over *all* recorded samples has run to its end
+// (a failed deletion returns before that and leaves the record, so that the retry finds the rest) - and
+// every recorded sample's block is the one deleted in its turn.
+//@ extern (*github.com/ipfs/go-datastore/autobatch.Datastore).Delete
+//@   effect $Deleted := err == nil
+//@ func (*ShareAvailability).Prune
+//@   property C14 C03
+//@   noframe
+//@   requires !$Deleted && h != nil && h.DAH != nil
+//@   havoc $Deleted $Stored
+//@   callpre Datastore).Delete: rangeindex == len(result.Available)
+//@   callpre bitswap.NewEmptySampleBlock: $arg1.Row == result.Available[rangeindex].Row && $arg1.Col == result.Available[rangeindex].Col
+//@   loop 1: invariant -1 <= rangeindex && rangeindex < len(result.Available) && !$Deleted
+//@   loop 1: backedge rangeindex == head(rangeindex) + 1
